@@ -65,15 +65,14 @@ impl CachedPlan {
     /// Return true if a set of input and output nodes matches those used to
     /// create the plan.
     pub fn matches(&self, inputs: &[NodeId], outputs: &[NodeId]) -> bool {
-        let input_match = inputs.len() == self.inputs.len()
-            && inputs
-                .iter()
-                .all(|node_id| self.inputs.binary_search(node_id).is_ok());
-        let output_match = outputs.len() == self.outputs.len()
-            && outputs
-                .iter()
-                .all(|node_id| self.outputs.binary_search(node_id).is_ok());
-        input_match && output_match
+        // The plan's ID lists contain no duplicates, so a list of the same
+        // length matches iff it contains every one of the plan's IDs. Testing
+        // in this direction also rejects lists which repeat an ID; those must
+        // reach the planner, which reports them as an error.
+        let same_ids = |ids: &[NodeId], plan_ids: &[NodeId]| {
+            ids.len() == plan_ids.len() && plan_ids.iter().all(|node_id| ids.contains(node_id))
+        };
+        same_ids(inputs, &self.inputs) && same_ids(outputs, &self.outputs)
     }
 
     /// Return the IDs of the sequence of operators to run.
